@@ -87,6 +87,107 @@ var wants = []want{
 	{"internal/metrics/metrics.go", "", "sortedKeys", "metrics_sortedKeys"},
 	{"internal/metrics/metrics.go", "Metrics", "RecordIterationResult", "metrics_RecordIterationResult"},
 	{"internal/metrics/metrics.go", "Metrics", "Reset", "metrics_Reset"},
+	// --- second batch: callers, constructors, parsers and builders around the modelled cores
+	{"internal/run/result.go", "Result", "Progress", "result_Progress"},
+	{"internal/run/result.go", "Result", "HasDroppedIterations", "result_HasDropped"},
+	{"internal/run/result.go", "Result", "Setup", "result_Setup"},
+	{"internal/run/result.go", "Result", "MaxDurationElapsed", "result_MaxDurationElapsed"},
+	{"internal/run/result.go", "Result", "Interrupted", "result_Interrupted"},
+	{"internal/run/result.go", "Result", "RecordStarted", "result_RecordStarted"},
+	{"internal/run/result.go", "Result", "RecordTestFinished", "result_RecordTestFinished"},
+	{"internal/run/result.go", "Result", "MaxIterationsReached", "result_MaxIterationsReached"},
+	{"internal/run/result.go", "Result", "duration", "result_duration"},
+	{"internal/run/result.go", "Result", "AddError", "result_AddError"},
+	{"internal/run/result.go", "Result", "Snapshot", "result_Snapshot"},
+	{"internal/run/result.go", "", "NewResult", "result_New"},
+	{"internal/run/test_runner.go", "", "newProgressRunner", "run_newProgressRunner"},
+	{"internal/run/test_runner.go", "", "NewRun", "run_NewRun"},
+	{"internal/run/test_runner.go", "Run", "fail", "run_fail"},
+	{"internal/run/test_runner.go", "Run", "printSummary", "run_printSummary"},
+	{"internal/run/run_cmd.go", "", "Cmd", "runcmd_Cmd"},
+	{"internal/run/run_cmd.go", "", "runCmdExecute", "runcmd_Execute"},
+	{"internal/trigger/rate/rate.go", "", "ParseRate", "rate_ParseRate"},
+	{"internal/trigger/rate/rate.go", "", "startsWithLetter", "rate_startsWithLetter"},
+	{"internal/trigger/staged/stage.go", "", "ParseStages", "staged_ParseStages"},
+	{"internal/trigger/staged/calculator.go", "", "NewRateCalculator", "staged_NewRateCalculator"},
+	{"internal/trigger/staged/calculator.go", "RateCalculator", "addRange", "staged_addRange"},
+	{"internal/trigger/staged/calculator.go", "RateCalculator", "add", "staged_add"},
+	{"internal/trigger/staged/calculator.go", "RateCalculator", "Rate", "staged_Rate"},
+	{"internal/trigger/staged/calculator.go", "RateCalculator", "MaxDuration", "staged_MaxDuration"},
+	{"internal/trigger/staged/staged_rate.go", "", "Rate", "staged_Builder"},
+	{"internal/trigger/staged/staged_rate.go", "", "CalculateStagedRate", "staged_Calculate"},
+	{"internal/trigger/ramp/ramp_rate.go", "", "Rate", "ramp_Builder"},
+	{"internal/trigger/ramp/ramp_rate.go", "", "CalculateRampRate", "ramp_Calculate"},
+	{"internal/trigger/constant/constant_rate.go", "", "Rate", "constant_Builder"},
+	{"internal/trigger/constant/constant_rate.go", "", "CalculateConstantRate", "constant_Calculate"},
+	{"internal/trigger/users/users_rate.go", "", "Rate", "users_Builder"},
+	{"internal/trigger/users/users_rate.go", "", "NewWorker", "users_NewWorker"},
+	{"internal/trigger/gaussian/gaussian_rate.go", "", "Rate", "gauss_Builder"},
+	{"internal/trigger/gaussian/gaussian_rate.go", "", "CalculateGaussianRate", "gauss_Calculate"},
+	{"internal/trigger/gaussian/gaussian_rate.go", "Calculator", "For", "gauss_For"},
+	{"internal/trigger/gaussian/gaussian_rate.go", "", "NewCalculator", "gauss_NewCalculator"},
+	{"internal/trigger/gaussian/gaussian_rate.go", "", "CalculateVolume", "gauss_CalculateVolume"},
+	{"internal/trigger/gaussian/gaussian_rate.go", "", "parseRateToTPS", "gauss_parseRateToTPS"},
+	{"internal/gaussian/gaussian.go", "", "NewDistribution", "gdist_New"},
+	{"internal/gaussian/gaussian.go", "Distribution", "Exponent", "gdist_Exponent"},
+	{"internal/gaussian/gaussian.go", "Distribution", "PDF", "gdist_PDF"},
+	{"internal/gaussian/gaussian.go", "Distribution", "CDF", "gdist_CDF"},
+	{"internal/trigger/api/iteration_distribution.go", "", "NewDistribution", "api_NewDistribution"},
+	{"internal/trigger/file/file_parser.go", "", "ParseConfigFile", "file_ParseConfigFile"},
+	{"internal/trigger/file/file_parser.go", "Stage", "parseStage", "file_parseStage"},
+	{"internal/trigger/file/file_parser.go", "ConfigFile", "validateCommonFields", "file_validateCommonFields"},
+	{"internal/trigger/file/file_parser.go", "Stage", "validateCommonFieldsOfStage", "file_validateCommonFieldsOfStage"},
+	{"internal/trigger/file/file_parser.go", "Stage", "validateConstantStage", "file_validateConstantStage"},
+	{"internal/trigger/file/file_parser.go", "Stage", "validateRampStage", "file_validateRampStage"},
+	{"internal/trigger/file/file_parser.go", "Stage", "validateStagedStage", "file_validateStagedStage"},
+	{"internal/trigger/file/file_parser.go", "Stage", "validateGaussianStage", "file_validateGaussianStage"},
+	{"internal/trigger/file/file_parser.go", "Stage", "validateUsersStage", "file_validateUsersStage"},
+	{"internal/trigger/file/file_rate.go", "", "Rate", "file_Builder"},
+	{"internal/trigger/file/stages_worker.go", "", "setEnvs", "file_setEnvs"},
+	{"internal/trigger/file/stages_worker.go", "", "unsetEnvs", "file_unsetEnvs"},
+	{"internal/workers/pool_manager.go", "", "New", "manager_New"},
+	{"internal/workers/pool_manager.go", "PoolManager", "NewTriggerPool", "manager_NewTriggerPool"},
+	{"internal/workers/pool_manager.go", "PoolManager", "NewContinuousPool", "manager_NewContinuousPool"},
+	{"internal/workers/trigger_pool.go", "", "newTriggerPool", "pool_new"},
+	{"internal/workers/continuous_pool.go", "", "newContinuousPool", "cpool_new"},
+	{"internal/workers/continuous_pool.go", "ContinuousPool", "maxIterationsReached", "cpool_maxIterationsReached"},
+	{"internal/workers/active_scenario.go", "", "NewActiveScenario", "active_New"},
+	{"internal/workers/active_scenario.go", "ActiveScenario", "newIterationState", "active_newIterationState"},
+	{"internal/workers/active_scenario.go", "ActiveScenario", "TeardownFailed", "active_TeardownFailed"},
+	{"internal/workers/active_scenario.go", "ActiveScenario", "Failed", "active_Failed"},
+	{"pkg/f1/testing/t.go", "T", "Cleanup", "t_Cleanup"},
+	{"pkg/f1/testing/t.go", "T", "Errorf", "t_Errorf"},
+	{"pkg/f1/testing/t.go", "T", "Error", "t_Error"},
+	{"pkg/f1/testing/t.go", "T", "Fatalf", "t_Fatalf"},
+	{"pkg/f1/testing/t.go", "T", "Fatal", "t_Fatal"},
+	{"pkg/f1/testing/t.go", "T", "Failed", "t_Failed"},
+	{"pkg/f1/testing/t.go", "T", "TeardownFailed", "t_TeardownFailed"},
+	{"pkg/f1/testing/t.go", "", "recordTime", "t_recordTime"},
+	{"pkg/f1/testing/t.go", "", "NewTWithOptions", "t_NewTWithOptions"},
+	{"internal/progress/average.go", "IterationDurations", "Reset", "average_Reset"},
+	{"internal/progress/stats.go", "Snapshot", "Iterations", "snapshot_Iterations"},
+	{"internal/progress/stats.go", "Snapshot", "IterationsStarted", "snapshot_IterationsStarted"},
+	{"internal/metrics/metrics.go", "", "buildMetrics", "metrics_build"},
+	{"internal/metrics/metrics.go", "", "NewInstance", "metrics_NewInstance"},
+	{"internal/metrics/metrics.go", "Metrics", "RecordSetupResult", "metrics_RecordSetupResult"},
+	{"internal/metrics/metrics.go", "Metrics", "RecordIterationStage", "metrics_RecordIterationStage"},
+	{"internal/raterun/runner.go", "", "New", "runner_New"},
+	{"internal/raterun/runner.go", "", "newSchedules", "schedules_new"},
+	{"internal/raterun/runner.go", "schedules", "startFirst", "schedules_startFirst"},
+	{"internal/raterun/runner.go", "schedules", "startNext", "schedules_startNext"},
+	{"internal/raterun/runner.go", "schedules", "currentFrequency", "schedules_currentFrequency"},
+	{"internal/raterun/runner.go", "schedules", "stop", "schedules_stop"},
+	{"internal/raterun/runner.go", "schedules", "timeUntilNextSchedule", "schedules_timeUntilNextSchedule"},
+	{"internal/raterun/runner.go", "schedules", "currentScheduleTicker", "schedules_currentScheduleTicker"},
+	{"internal/run/views/result.go", "ResultData", "Log", "views_ResultLog"},
+	{"internal/run/views/result.go", "Views", "Result", "views_Result"},
+	{"internal/run/views/progress.go", "ProgressData", "Log", "views_ProgressLog"},
+	{"internal/run/views/progress.go", "Views", "Progress", "views_Progress"},
+	{"internal/run/views/templates.go", "", "render", "views_render"},
+	{"pkg/f1/f1.go", "F1", "execute", "f1_execute"},
+	{"pkg/f1/f1.go", "F1", "ExecuteWithArgs", "f1_ExecuteWithArgs"},
+	{"pkg/f1/root_cmd.go", "", "buildRootCmd", "f1_buildRootCmd"},
+	{"internal/trigger/configure.go", "", "GetBuilders", "trigger_GetBuilders"},
 }
 
 func recvName(fd *ast.FuncDecl) string {
